@@ -1025,7 +1025,23 @@ fn do_extract(args: &BTreeMap<String, String>) -> Result<(), String> {
                         range = src.range(im);
                         header = String::new();
                         footer = String::new();
-                        // contracts for trait-impl fns are not woven (Verus forbids requires there)
+                        // a trait impl with a single fn (Drop::drop, Iterator::next): hints / contract text are woven into it
+                        let fns: Vec<&syn::ImplItemFn> = im.items.iter().filter_map(|i| if let syn::ImplItem::Fn(f) = i { Some(f) } else { None }).collect();
+                        if let (Some(newname), 1) = (&take.as_inherent, fns.len()) {
+                            if let Some((_, tp, for_tok)) = &im.trait_ {
+                                let st = src.range(tp).0;
+                                let en = src.span_range(for_tok.span()).1;
+                                edits.push(Edit { start: st, end: en, text: String::new(), rule: "R18-trait-fn-as-inherent", label: None, prio: 0 });
+                                let ir = src.range(&fns[0].sig.ident);
+                                edits.push(Edit { start: ir.0, end: ir.1, text: newname.clone(), rule: "R18-trait-fn-as-inherent", label: None, prio: 0 });
+                                let fr = src.span_range(fns[0].sig.fn_token.span());
+                                edits.push(Edit { start: fr.0, end: fr.0, text: "pub ".into(), rule: "R18-trait-fn-as-inherent", label: None, prio: 0 });
+                            }
+                        }
+                        if fns.len() == 1 && !take.subs.is_empty() {
+                            // no R3 (return naming) for trait fns without a return value
+                            fn_edits(src, take, &fns[0].sig, &fns[0].block, &fname_disp, &mut edits, &mut em.missing_anchors)?;
+                        }
                     }
                 }
                 if !auto.errors.is_empty() {
